@@ -75,16 +75,18 @@ Values(T) ==
   CASE T.k = "prim" -> PrimValues(T.name)
     [] T.k \in {"unit", "rangefull", "phantom"} -> << <<>> >>
     [] T.k \in {"string", "boxstr"} -> StrValues
-    [] T.k \in SeqKinds -> SeqValues(Values(T.elem))
-    [] T.k \in {"array", "tuple"} -> NTuples(Values(T.elem), T.n)
-    [] T.k = "option" -> << <<0>> >> \o [i \in 1..Len(Values(T.elem)) |-> <<1, Values(T.elem)[i]>>]
+    [] T.k \in SeqKinds -> LET ev == Values(T.elem) IN SeqValues(ev)
+    [] T.k \in {"array", "tuple"} -> LET ev == Values(T.elem) IN NTuples(ev, T.n)
+    [] T.k = "option" ->
+         LET ev == Values(T.elem) IN << <<0>> >> \o [i \in 1..Len(ev) |-> <<1, ev[i]>>]
     [] T.k = "bound" ->
-         << <<0>> >> \o [i \in 1..Len(Values(T.elem)) |-> <<1, Values(T.elem)[i]>>]
-                     \o [i \in 1..Len(Values(T.elem)) |-> <<2, Values(T.elem)[i]>>]
+         LET ev == Values(T.elem)
+         IN << <<0>> >> \o [i \in 1..Len(ev) |-> <<1, ev[i]>>] \o [i \in 1..Len(ev) |-> <<2, ev[i]>>]
     [] T.k = "cflow" ->
-         [i \in 1..Len(Values(T.b)) |-> <<0, Values(T.b)[i]>>]
-         \o [i \in 1..Len(Values(T.c)) |-> <<1, Values(T.c)[i]>>]
-    [] T.k = "range" -> NTuples(Values(T.elem), RangeArity(T.rk))
+         LET bv == Values(T.b)
+             cv == Values(T.c)
+         IN [i \in 1..Len(bv) |-> <<0, bv[i]>>] \o [i \in 1..Len(cv) |-> <<1, cv[i]>>]
+    [] T.k = "range" -> LET ev == Values(T.elem) IN NTuples(ev, RangeArity(T.rk))
     [] T.k = "struct" -> FieldValues(T.fields)
     [] T.k = "enum" ->
          Cat([i \in 1..Len(T.variants) |->
